@@ -926,8 +926,14 @@ const STD_ERRORS: [&str; 4] = [
 ];
 
 fn gen_error_name(rng: &mut Rng) -> String {
-    match rng.below(12) {
+    match rng.below(16) {
         0..=5 => STD_ERRORS[rng.below(4)].to_string(),
+        // interface-defined errors that only LOOK like a standard one: same last component under another
+        // interface, the standard name as a prefix or suffix of a longer one
+        12 => format!("com.example.{}", STD_ERRORS[rng.below(4)].rsplit('.').next().unwrap()),
+        13 => format!("org.varlink.service.sub.{}", STD_ERRORS[rng.below(4)].rsplit('.').next().unwrap()),
+        14 => format!("{}.Extra", STD_ERRORS[rng.below(4)]),
+        15 => STD_ERRORS[rng.below(4)].rsplit('.').next().unwrap().to_string(),
         6 => "org.example.client.Custom".into(),
         7 => "org.varlink.service.InterfaceNotFoun".into(),
         8 => "org.varlink.service.interfacenotfound".into(),
